@@ -7,6 +7,7 @@ line handling of sam.Reader), with the repairs fixes/C06-1..6 applied.  Specific
 Float text is the parameter `ft : FloatText` with the assumed laws `L : FloatLaws ft`.
 -/
 import Hts.Lemmas.SamRecord
+import Hts.Lemmas.SamStable
 import Hts.Lemmas.SamReader
 import Hts.Lemmas.SamSpec
 namespace Hts.Props.C06
@@ -61,6 +62,28 @@ theorem format_parse_format {ft : FloatText} (L : FloatLaws ft) (h : Header) (hh
       formatRecord ft f r' = .ok line ∧ fieldsEq r r' :=
   ⟨_, canonRecord L r, formatRecord_ok f r he.2.2.2.2.2.1, parseRecord_format L h hh f hf r he,
     formatRecord_canon L f r he.2.2.2.2.2.1, fieldsEq_canon L r he.2.2.2.2.2.1⟩
+
+/-- the parsed-back record is itself expressible and is a fixed point: formatting and parsing it again
+returns exactly the same record (a second round trip changes nothing) -/
+theorem roundtrip_stable {ft : FloatText} (L : FloatLaws ft) (h : Header) (hh : HeaderOK h) (f : FlagFmt)
+    (hf : f = .dec ∨ f = .hex) (r : Record) (he : Expressible h r) :
+    Expressible h (canonRecord L r) ∧
+      parseRecord ft (some h) (joinWith 9 (recordFields ft f (canonRecord L r))) = .ok (canonRecord L r) := by
+  have he' := expressible_canon L h r he
+  refine ⟨he', ?_⟩
+  rw [parseRecord_format L h hh f hf _ he', canonRecord_idem]
+
+/-- parsing the line without a header (`UnmarshalSAM(nil, …)`, `UnmarshalText`) gives the same record
+with made-up references carrying the names (id -1, length 0), and that record formats to the same line -/
+theorem format_parse_nil_header {ft : FloatText} (L : FloatLaws ft) (h : Header) (hh : HeaderOK h) (f : FlagFmt)
+    (hf : f = .dec ∨ f = .hex) (r : Record) (he : Expressible h r) :
+    ∃ line, formatRecord ft f r = .ok line ∧ parseRecord ft none line = .ok (fakeRefs (canonRecord L r)) ∧
+      formatRecord ft f (fakeRefs (canonRecord L r)) = .ok line := by
+  refine ⟨_, formatRecord_ok f r he.2.2.2.2.2.1, parseRecord_format_nil L h hh f hf r he, ?_⟩
+  have hq := qualOK_canon L r he.2.2.2.2.2.1
+  have h1 : formatRecord ft f (fakeRefs (canonRecord L r)) =
+      .ok (joinWith 9 (recordFields ft f (fakeRefs (canonRecord L r)))) := formatRecord_ok f _ hq
+  rw [h1, recordFields_fakeRefs h hh f (canonRecord L r) he.2.1 he.2.2.1, recordFields_canon]
 
 /-- the line is the one the specification's formatter produces for the record's abstraction -/
 theorem format_is_spec (ft : FloatText) (h : Header) (r : Record) (he : Expressible h r) :
